@@ -8,10 +8,14 @@ early exit = [FCFS].
 from __future__ import annotations
 
 import ast
+import copy
+import re
 from typing import Any, List, Optional
 
 from checks import c01
 from sa import astq
+from sa.consteval import Folder
+from sa.defuse import Inliner
 from sa.flow import FlowMap, always_exits, facts
 from sa.model import AnalysisError, FuncInfo, norm
 from sa.sym import Aff, SymEnv, atom_of
@@ -67,7 +71,9 @@ def check_components(chk, fi: FuncInfo) -> None:
     pre = [s for s in ast.walk(outer) if isinstance(s, ast.stmt) and s is not w and not any(s is n for n in ast.walk(w))]
     pre_txt = [norm(s) for s in pre]
     chk.expect(
-        any(t in (f"visited[{v0}] = True", f"visited.add({v0})") for t in pre_txt) and f"{wl} = [{v0}]" in pre_txt and f"components.append([{v0}])" in pre_txt,
+        any(t in (f"visited[{v0}] = True", f"visited.add({v0})") for t in pre_txt)
+        and f"{wl} = [{v0}]" in pre_txt
+        and (f"components.append([{v0}])" in pre_txt or any((mm := re.fullmatch(r"components\.append\((\w+)\)", t)) and f"{mm.group(1)} = [{v0}]" in pre_txt and mm.group(1) != wl for t in pre_txt)),
         "components-start",
         fi.site(outer),
         "the start vertex is marked, pushed and opens a new component",
@@ -75,199 +81,387 @@ def check_components(chk, fi: FuncInfo) -> None:
         K(fi, "start-bookkeeping"),
         found=pre_txt,
     )
-    # idioms
+    # ---- the walk itself: facts about when the worklist shrinks and when a neighbour is taken ------------------
+    comp_alias = {"components[-1]"}
+    for t in pre_txt:
+        mm = re.fullmatch(r"components\.append\((\w+)\)", t)
+        if mm and f"{mm.group(1)} = [{v0}]" in pre_txt:
+            comp_alias.add(mm.group(1))
     pops = [c for c in astq.calls(w, "pop") if astq.dotted(c.func.value) == wl]
-    nb_loops = [l for l in ast.walk(w) if isinstance(l, ast.For)]
-    if len(pops) != 1 or len(nb_loops) != 1:
-        chk.error("components-walk", fi.site(w), f"expected one pop and one neighbour loop in the worklist loop, found {len(pops)} / {len(nb_loops)}")
+    if len(pops) != 1:
+        chk.error("components-walk", fi.site(w), f"expected one pop of the worklist in the worklist loop, found {len(pops)}")
         return
-    pop, nb = pops[0], nb_loops[0]
+    pop = pops[0]
     pop_st = fm.stmt_of(pop)
-    pop_guards = fm.guards_within(pop_st, w)
-    cur_def = None
-    # current vertex
-    cur_name = None
-    mm = astq.match(nb.iter, "graph[C_]")
-    if not mm or not isinstance(mm["C_"], ast.Name) or not isinstance(nb.target, ast.Name):
-        chk.error("components-walk", fi.site(nb), f"neighbour loop `{norm(nb.iter)}` is not over graph[current]")
-        return
-    cur_name = mm["C_"].id
-    nbr = nb.target.id
-    cur_defs = [val for s, val in astq.assignments(w, cur_name) if val is not None]
-    breaks = [n for n in ast.walk(nb) if isinstance(n, ast.Break)]
-    marks = [s for s in ast.walk(w) if isinstance(s, ast.stmt) and norm(s) in ("visited[%s] = True" % x for x in (nbr, "next_vertex"))]
-    if not pop_guards and len(cur_defs) == 1 and cur_defs[0] is pop:
-        # idiom B: current = worklist.pop(); every unvisited neighbour is marked, pushed, recorded; no break
-        body_txt = [norm(s) for s in ast.walk(nb) if isinstance(s, ast.stmt)]
-        guarded = [s for s in nb.body if isinstance(s, ast.If) and (astq.match(s.test, f"not visited[{nbr}]") is not None or astq.match(s.test, f"{nbr} not in visited") is not None)]
-        ok = (
-            not breaks
-            and len(guarded) == 1
-            and any(norm(s) in (f"visited[{nbr}] = True", f"visited.add({nbr})") for s in guarded[0].body)
-            and any(norm(s) == f"{wl}.append({nbr})" for s in guarded[0].body)
-            and any(norm(s) == f"components[-1].append({nbr})" for s in guarded[0].body)
-        )
-        chk.expect(
-            ok,
-            "components-walk",
-            fi.site(w),
-            "pop-first walk: every unvisited neighbour of the popped vertex is marked, pushed and recorded (no early break)",
-            "pop-first walk that does not mark, push and record *every* unvisited neighbour of the popped vertex (break or missing step): a branching component is split",
-            K(fi, "walk"),
-            found=body_txt,
-        )
-        return
-    if len(cur_defs) == 1 and astq.match(cur_defs[0], f"{wl}[-1]") is not None:
-        # idiom A: peek; first unvisited neighbour -> mark/push/record; pop only when none is left
-        nv_assign = [s for s in ast.walk(nb) if isinstance(s, ast.Assign) and isinstance(s.targets[0], ast.Name) and astq.match(s.value, nbr) is not None]
-        if len(nv_assign) != 1:
-            chk.error("components-walk", fi.site(nb), "peek walk: the chosen neighbour is not stored in a variable")
+    pop_facts = facts(fm.guards_within(pop_st, w))
+    top_names = {f"{wl}[-1]"}
+    for s2 in ast.walk(w):
+        if isinstance(s2, ast.Assign) and isinstance(s2.targets[0], ast.Name) and norm(s2.value) == f"{wl}[-1]" and len(astq.assignments(w, s2.targets[0].id)) == 1:
+            top_names.add(s2.targets[0].id)
+    popped_names = set()
+    if isinstance(pop_st, ast.Assign) and isinstance(pop_st.targets[0], ast.Name) and pop_st.value is pop and len(astq.assignments(w, pop_st.targets[0].id)) == 1:
+        popped_names.add(pop_st.targets[0].id)
+
+    def unvisited(test: ast.AST, x: str) -> Optional[bool]:
+        """True if `test` says x is unvisited, False if it says visited."""
+        t = norm(test)
+        if t in (f"not visited[{x}]", f"{x} not in visited", f"visited[{x}] is False", f"visited[{x}] == False"):
+            return True
+        if t in (f"visited[{x}]", f"{x} in visited"):
+            return False
+        return None
+
+    def steps(x: str, scope: ast.AST):
+        """statements that mark / push / record x inside scope"""
+        mark = [s2 for s2 in ast.walk(scope) if isinstance(s2, ast.stmt) and norm(s2) in (f"visited[{x}] = True", f"visited.add({x})")]
+        push = [s2 for s2 in ast.walk(scope) if isinstance(s2, ast.stmt) and norm(s2) == f"{wl}.append({x})"]
+        rec = [s2 for s2 in ast.walk(scope) if isinstance(s2, ast.stmt) and norm(s2) in {f"{a}.append({x})" for a in comp_alias}]
+        return mark, push, rec
+
+    nb_loops = [l for l in ast.walk(w) if isinstance(l, ast.For)]
+    if popped_names and not pop_facts and w.body and w.body[0] is pop_st:
+        # idiom B: current = worklist.pop() first; then every unvisited neighbour must be marked, pushed, recorded
+        cur = next(iter(popped_names))
+        if len(nb_loops) != 1 or norm(nb_loops[0].iter) != f"graph[{cur}]" or not isinstance(nb_loops[0].target, ast.Name):
+            chk.error("components-walk", fi.site(w), "pop-first walk: loop over the neighbours of the popped vertex not found")
             return
-        nv = nv_assign[0].targets[0].id
-        g = facts(fm.guards_within(nv_assign[0], nb))
-        sel_ok = any((astq.match(x.test, f"visited[{nbr}]") is not None and x.polarity is False) or (astq.match(x.test, f"{nbr} in visited") is not None and x.polarity is False) for x in g) and len(g) == 1
-        reset = [s for s in w.body if norm(s) == f"{nv} = None"]
-        reset_ok = len(reset) == 1 and w.body.index(reset[0]) < w.body.index(nb)
-        pg = facts(pop_guards)
-        pop_ok = len(pg) == 1 and ((astq.match(pg[0].test, f"{nv} is not None") is not None and pg[0].polarity is False) or (astq.match(pg[0].test, f"{nv} is None") is not None and pg[0].polarity is True)) and len(pop.args) == 0
-        push_if = pg[0].stmt if pg else None
-        push_body = (push_if.body if pg and astq.match(pg[0].test, f"{nv} is not None") is not None else (push_if.orelse if push_if is not None else [])) if push_if is not None else []
-        pt = [norm(s) for s in push_body]
-        push_ok = any(t in (f"visited[{nv}] = True", f"visited.add({nv})") for t in pt) and f"{wl}.append({nv})" in pt and f"components[-1].append({nv})" in pt
-        chk.expect(
-            sel_ok and reset_ok and pop_ok and push_ok,
-            "components-walk",
-            fi.site(w),
-            "peek walk: an unvisited neighbour of the top vertex is marked, pushed and recorded; the top is popped only when it has none left",
-            "peek walk in which the top vertex can be popped while it still has unvisited neighbours, or a found neighbour is not marked/pushed/recorded: a component is split or a vertex lost",
-            K(fi, "walk"),
-            found={"select": sel_ok, "reset": reset_ok, "pop": pop_ok, "push": push_ok},
-        )
+        nb = nb_loops[0]
+        nbr = nb.target.id
+        early = [n for n in ast.walk(nb) if isinstance(n, (ast.Break, ast.Return))]
+        if early:
+            chk.violation("components-walk", fi.site(early[0]), "pop-first walk leaves the neighbour loop early: the popped vertex is gone from the worklist, so its remaining unvisited neighbours are reached only by luck and a branching component is split", K(fi, "walk"))
+            return
+        mark, push, rec = steps(nbr, nb)
+        if len(mark) == 1 and len(push) == 1 and len(rec) == 1:
+            ok = True
+            for s2 in (mark[0], push[0], rec[0]):
+                fs = facts(fm.guards_within(s2, nb))
+                ok = ok and len(fs) == 1 and unvisited(fs[0].test, nbr) is (True if fs[0].polarity else False) and unvisited(fs[0].test, nbr) is not None
+            if ok:
+                chk.ok("components-walk", fi.site(w), "pop-first walk: every unvisited neighbour of the popped vertex is marked, pushed and recorded (no early exit)")
+            else:
+                chk.error("components-walk", fi.site(nb), "pop-first walk: mark/push/record are not all under exactly the 'neighbour unvisited' test")
+        else:
+            missing = [n for n, l in (("mark visited", mark), ("push", push), ("record in component", rec)) if not l]
+            if missing and not any(len(l) > 1 for l in (mark, push, rec)):
+                chk.violation("components-walk", fi.site(nb), f"pop-first walk: an unvisited neighbour is not {' / '.join(missing)}: vertices are lost or visited twice", K(fi, "walk"), found=[norm(s2) for s2 in ast.walk(nb) if isinstance(s2, ast.stmt)][:12])
+            else:
+                chk.error("components-walk", fi.site(nb), "pop-first walk: mark/push/record steps not recognised")
         return
-    chk.error("components-walk", fi.site(w), "graph walk idiom not recognised (neither pop-first nor peek)")
+    # idiom A: peek walk.  chosen := some unvisited neighbour of the top vertex or None
+    chosen = None
+    sel_site = None
+    for s2 in ast.walk(w):
+        if not (isinstance(s2, ast.Assign) and isinstance(s2.targets[0], ast.Name)):
+            continue
+        nm = s2.targets[0].id
+        val = s2.value
+        # form 2: next((v for v in graph[top] if not visited[v]), None), possibly through a named generator
+        if isinstance(val, ast.Call) and astq.callee_name(val) == "next" and len(val.args) == 2 and norm(val.args[1]) == "None":
+            gen = val.args[0]
+            if isinstance(gen, ast.Name):
+                d = [x for _, x in astq.assignments(w, gen.id) if x is not None]
+                gen = d[0] if len(d) == 1 else gen
+            if isinstance(gen, (ast.GeneratorExp, ast.ListComp)) and len(gen.generators) == 1 and isinstance(gen.generators[0].target, ast.Name):
+                g0 = gen.generators[0]
+                x = g0.target.id
+                src = norm(g0.iter)
+                if norm(gen.elt) == x and any(src == f"graph[{t}]" for t in top_names) and len(g0.ifs) == 1 and unvisited(g0.ifs[0], x) is True:
+                    chosen, sel_site = nm, s2
+    if chosen is None and len(nb_loops) == 1 and isinstance(nb_loops[0].target, ast.Name) and any(norm(nb_loops[0].iter) == f"graph[{t}]" for t in top_names):
+        nb = nb_loops[0]
+        nbr = nb.target.id
+        nv_assign = [s2 for s2 in ast.walk(nb) if isinstance(s2, ast.Assign) and isinstance(s2.targets[0], ast.Name) and norm(s2.value) == nbr]
+        if len(nv_assign) == 1:
+            nm = nv_assign[0].targets[0].id
+            g = facts(fm.guards_within(nv_assign[0], nb))
+            sel_ok = len(g) == 1 and unvisited(g[0].test, nbr) is not None and unvisited(g[0].test, nbr) is g[0].polarity
+            reset = [s2 for s2 in w.body if norm(s2) == f"{nm} = None"]
+            reset_ok = len(reset) == 1 and w.body.index(reset[0]) < w.body.index(nb) if nb in w.body else False
+            if sel_ok and reset_ok and len(astq.assignments(w, nm)) == 2:
+                chosen, sel_site = nm, nv_assign[0]
+            elif not reset and sel_ok:
+                chk.violation("components-walk", fi.site(nb), f"peek walk: `{nm}` is not reset to None before the neighbours of the top vertex are examined: a stale neighbour from the previous round is pushed again", K(fi, "walk"))
+                return
+    if chosen is None:
+        chk.error("components-walk", fi.site(w), "graph walk idiom not recognised (neither pop-first nor peek with a chosen unvisited neighbour)")
+        return
+
+    def none_fact(g) -> Optional[bool]:
+        """True: fact says chosen is None; False: says it is not None."""
+        t = norm(g.test)
+        if t in (f"{chosen} is None", f"{chosen} == None"):
+            return g.polarity
+        if t in (f"{chosen} is not None", f"{chosen} != None"):
+            return not g.polarity
+        return None
+
+    # only statements after the selection count
+    pf = [none_fact(g) for g in pop_facts]
+    mark, push, rec = steps(chosen, w)
+    problems = []
+    if pf == [False]:
+        chk.violation("components-walk", fi.site(pop_st), "peek walk pops the top vertex exactly when an unvisited neighbour was found", K(fi, "walk"))
+        return
+    if not pop_facts:
+        chk.violation("components-walk", fi.site(pop_st), "peek walk pops the top vertex in every round, also when it still has unvisited neighbours: a branching component is split", K(fi, "walk"))
+        return
+    if pf != [True] or len(pop.args) != 0:
+        chk.error("components-walk", fi.site(pop_st), f"peek walk: condition of the pop `{[norm(g.test) for g in pop_facts]}` not recognised")
+        return
+    for what, lst in (("marked visited", mark), ("pushed", push), ("recorded in the component", rec)):
+        if not lst:
+            problems.append(what)
+    if problems:
+        chk.violation("components-walk", fi.site(w), f"peek walk: the chosen neighbour is not {' / '.join(problems)}: a vertex is lost from its component or the walk does not terminate", K(fi, "walk"))
+        return
+    if any(len(l) != 1 for l in (mark, push, rec)):
+        chk.error("components-walk", fi.site(w), "peek walk: several mark/push/record statements")
+        return
+    for s2 in (mark[0], push[0], rec[0]):
+        fs = [none_fact(g) for g in facts(fm.guards_within(s2, w))]
+        if fs != [False]:
+            chk.error("components-walk", fi.site(s2), f"peek walk: `{norm(s2)}` is not under exactly 'a neighbour was chosen'")
+            return
+    chk.ok("components-walk", fi.site(w), "peek walk: an unvisited neighbour of the top vertex is marked, pushed and recorded; the top is popped only when it has none left")
+
+
+def _replicated_mutable(v: ast.AST) -> bool:
+    """[set()] * n, [[]] * n, [{}] * n ... : one mutable object referenced n times."""
+    m = astq.match(v, "[E_] * N_") or astq.match(v, "N_ * [E_]")
+    if not m:
+        return False
+    e = m["E_"]
+    return isinstance(e, (ast.List, ast.Dict, ast.Set, ast.ListComp, ast.SetComp, ast.DictComp)) or (isinstance(e, ast.Call) and astq.callee_name(e) in ("set", "list", "dict", "defaultdict"))
 
 
 def check_permutation_greedy(chk, fi: FuncInfo) -> None:
     fm = FlowMap(fi.node)
-    comp_loops = [l for l in fi.node.body if isinstance(l, ast.For) and astq.match(l.iter, "components") is not None]
-    if len(comp_loops) != 1 or not isinstance(comp_loops[0].target, ast.Name):
+    inl = Inliner(fi.node)
+    comp_loops = []
+    for l in fi.node.body:
+        if not isinstance(l, ast.For):
+            continue
+        if astq.match(l.iter, "components") is not None and isinstance(l.target, ast.Name):
+            comp_loops.append((l, l.target.id, None))
+        elif astq.match(l.iter, "enumerate(components)") is not None and isinstance(l.target, ast.Tuple) and len(l.target.elts) == 2 and all(isinstance(e, ast.Name) for e in l.target.elts):
+            comp_loops.append((l, l.target.elts[1].id, l.target.elts[0].id))
+    if len(comp_loops) != 1:
         chk.error("greedy-perms", fi.where, "loop over components not found")
         return
-    cl = comp_loops[0]
-    comp = cl.target.id
+    cl, comp, cidx = comp_loops[0]
     pls = [l for l in cl.body if isinstance(l, ast.For)]
     if len(pls) != 1 or not isinstance(pls[0].target, ast.Name):
         chk.error("greedy-perms", fi.site(cl), "loop over permutations not found")
         return
     pl = pls[0]
     perm = pl.target.id
-    if isinstance(pl.iter, ast.Call) and astq.dotted(pl.iter.func) == "itertools.permutations":
-        chk.expect(
-            len(pl.iter.args) == 1 and not pl.iter.keywords and norm(pl.iter.args[0]) == comp,
-            "greedy-perms",
-            fi.site(pl),
-            "every ordering of the component's stems is tried: itertools.permutations(component)",
-            f"`{norm(pl.iter)}` does not enumerate all orderings of the whole component",
-            K(fi, "permutations"),
-            expected=f"itertools.permutations({comp})",
-            found=norm(pl.iter),
-        )
-    elif isinstance(pl.iter, (ast.List, ast.Tuple)):
-        chk.violation("greedy-perms", fi.site(pl), f"only the orderings `{norm(pl.iter)}` are tried, not all permutations of the component", K(fi, "permutations"), found=norm(pl.iter))
-    else:
-        chk.error("greedy-perms", fi.site(pl), f"enumeration of orderings `{norm(pl.iter)}` not recognised")
+    # every value the iterated expression can have
+    sources = [pl.iter]
+    if isinstance(pl.iter, ast.Name):
+        sources = [v for _, v in astq.assignments(cl, pl.iter.id) if v is not None]
+        if not sources:
+            chk.error("greedy-perms", fi.site(pl), f"`{pl.iter.id}` is not bound inside the component loop")
+            return
+    all_ok = True
+    for src in sources:
+        if isinstance(src, ast.Call) and astq.dotted(src.func) in ("itertools.permutations", "permutations"):
+            full = len(src.args) == 1 and not src.keywords and norm(src.args[0]) in (comp, f"list({comp})", f"tuple({comp})")
+            chk.expect(
+                full,
+                "greedy-perms",
+                fi.site(src),
+                "every ordering of the component's stems is tried: itertools.permutations(component)",
+                f"`{norm(src)}` does not enumerate all orderings of the whole component",
+                K(fi, "permutations"),
+                expected=f"itertools.permutations({comp})",
+                found=norm(src),
+            )
+        elif isinstance(src, (ast.List, ast.Tuple)) or (isinstance(src, ast.Call) and astq.dotted(src.func) in ("itertools.islice", "itertools.combinations", "sorted", "reversed", "iter")):
+            chk.violation("greedy-perms", fi.site(src), f"only the orderings `{norm(src)}` are tried for some components, not all permutations: greedy-stable assignments reachable only through other orders are missing", K(fi, "permutations"), found=norm(src))
+        else:
+            all_ok = False
+            chk.error("greedy-perms", fi.site(src), f"enumeration of orderings `{norm(src)}` not recognised")
     skip = [n for s in cl.body for n in ast.walk(s) if isinstance(n, (ast.Break, ast.Continue))]
-    chk.expect(not skip, "greedy-perms", fi.site(cl), "no component or permutation is skipped", "break/continue in the component/permutation loops skips cases", K(fi, "perm-skip"))
+    chk.expect(not skip, "greedy-perms-skip", fi.site(cl), "no component or permutation is skipped", "break/continue in the component/permutation loops skips cases", K(fi, "perm-skip"))
     # orders init per permutation
     oi = [s for s in pl.body if isinstance(s, ast.Assign) and norm(s.targets[0]) == "orders"]
-    ok = len(oi) == 1 and (astq.match(oi[0].value, f"{{X_: 0 for X_ in {comp}}}") is not None or astq.match(oi[0].value, f"dict.fromkeys({comp}, 0)") is not None)
-    chk.expect(ok, "greedy-init", fi.site(pl), "every permutation starts with all stems of the component on level 0", "per-permutation level map is not initialised to 0 for every stem of the component", K(fi, "greedy-init"), found=norm(oi[0].value) if oi else None)
+    if len(oi) != 1:
+        chk.error("greedy-init", fi.site(pl), "per-permutation level map `orders` is not initialised exactly once in the permutation loop")
+    else:
+        v = oi[0].value
+        ok = any(astq.match(v, p) is not None for p in (f"{{X_: 0 for X_ in {comp}}}", f"dict.fromkeys({comp}, 0)", f"{{X_: 0 for X_ in {perm}}}", f"dict.fromkeys({perm}, 0)"))
+        chk.expect(ok, "greedy-init", fi.site(oi[0]), "every permutation starts with all stems of the component on level 0", "per-permutation level map is not initialised to 0 for every stem of the component", K(fi, "greedy-init"), found=norm(v))
     gl = [l for l in pl.body if isinstance(l, ast.For)]
     if len(gl) != 1 or not isinstance(gl[0].target, ast.Name):
         chk.error("greedy-loop", fi.site(pl), "greedy loop over positions not found")
         return
     g = gl[0]
     i = g.target.id
-    chk.expect(
-        any(astq.match(g.iter, p) is not None for p in (f"range(1, len({perm}))", f"range(len({perm}))", f"range(1, len({comp}))", f"range(len({comp}))")),
-        "greedy-outer",
-        fi.site(g),
-        "every position after the first is assigned in permutation order",
-        f"`{norm(g.iter)}` does not visit every position of the permutation",
-        K(fi, "greedy-outer"),
-        found=norm(g.iter),
-    )
+    ranges = {f"range(1, len({perm}))": 1, f"range(len({perm}))": 0, f"range(1, len({comp}))": 1, f"range(len({comp}))": 0}
+    if norm(g.iter) in ranges:
+        chk.ok("greedy-outer", fi.site(g), "every position after the first is assigned in permutation order")
+    else:
+        m = astq.match(g.iter, f"range(A_, len({perm}))") or astq.match(g.iter, f"range(A_, len({comp}))")
+        lo = Folder(chk.repo, MOD).try_fold(m["A_"]) if m else None
+        if isinstance(lo, int) and lo > 1:
+            chk.violation("greedy-outer", fi.site(g), f"`{norm(g.iter)}` starts at position {lo}: positions 1..{lo - 1} keep level 0 even next to a crossing earlier stem", K(fi, "greedy-outer"), found=norm(g.iter))
+        else:
+            mm = astq.match(g.iter, f"range(A_, len({perm}) - B_)") or astq.match(g.iter, f"range(len({perm}) - B_)")
+            if mm and isinstance(Folder(chk.repo, MOD).try_fold(mm["B_"]), int) and Folder(chk.repo, MOD).try_fold(mm["B_"]) > 0:
+                chk.violation("greedy-outer", fi.site(g), f"`{norm(g.iter)}` stops before the last position of the permutation", K(fi, "greedy-outer"), found=norm(g.iter))
+            else:
+                chk.error("greedy-outer", fi.site(g), f"positions `{norm(g.iter)}` not recognised")
+    cur_names = {f"{perm}[{i}]"}
+    for s in g.body:
+        if isinstance(s, ast.Assign) and isinstance(s.targets[0], ast.Name) and norm(s.value) == f"{perm}[{i}]" and len(astq.assignments(g, s.targets[0].id)) == 1:
+            cur_names.add(s.targets[0].id)
+
+    def adjacent_to_current(test: ast.AST, other: set) -> bool:
+        t = norm(test)
+        return any(t in (f"{o} in graph[{c}]", f"{c} in graph[{o}]") for o in other for c in cur_names)
+
+    stores = [s for s in g.body if isinstance(s, ast.Assign) and any(norm(s.targets[0]) == f"orders[{c}]" for c in cur_names)]
+    if len(stores) != 1:
+        chk.error("greedy-choice", fi.site(g), "the level of the current stem is not stored exactly once per position")
+        return
+    store = stores[0]
+    choice = inl.inline(store.value, store, stop=("available", "taken", "orders", perm, comp, i, "graph"))
+    # ---- family 1: availability table + scan --------------------------------------------------------------------
     av = [s for s in g.body if isinstance(s, ast.Assign) and norm(s.targets[0]) == "available"]
     inner = [l for l in g.body if isinstance(l, ast.For)]
-    if len(av) != 1 or len(inner) != 1 or not isinstance(inner[0].target, ast.Name):
-        chk.violation("greedy-available", fi.site(g), "the availability table is not rebuilt once per position before one scan of the earlier positions", K(fi, "greedy-available"))
-        return
-    sz_ok = False
-    v = av[0].value
-    if isinstance(v, ast.ListComp) and isinstance(v.elt, ast.Constant) and v.elt.value is True:
-        it = v.generators[0].iter
-        sz_ok = any(astq.match(it, p) is not None for p in (f"range(len({comp}))", f"range(len({perm}))", f"range(len({comp}) + C_)", "range(len(regions))"))
-    else:
-        sz_ok = any(astq.match(v, p) is not None for p in (f"[True] * len({comp})", f"[True] * len({perm})"))
-    chk.expect(
-        sz_ok and g.body.index(av[0]) < g.body.index(inner[0]),
-        "greedy-available",
-        fi.site(av[0]),
-        "one availability flag per possible level (|component| levels), all True before each scan",
-        f"availability table `{norm(v)}` is smaller than the component or not rebuilt before the scan",
-        K(fi, "greedy-available"),
-        found=norm(v),
-    )
-    inn = inner[0]
-    j = inn.target.id
-    chk.expect(
-        c01.covers_all_earlier(inn.iter, i),
-        "greedy-earlier",
-        fi.site(inn),
-        "the scan covers all earlier positions 0..i-1 of the permutation",
-        f"`{norm(inn.iter)}` does not cover all earlier positions of the permutation",
-        K(fi, "greedy-earlier"),
-        expected=f"range({i})",
-        found=norm(inn.iter),
-    )
-    exits = [n for s in inn.body for n in ast.walk(s) if isinstance(n, (ast.Break, ast.Continue))]
-    chk.expect(not exits, "greedy-earlier-exit", fi.site(inn), "the scan has no early exit", "break/continue in the scan over earlier positions", K(fi, "greedy-exit"))
-    marks = [s for s in ast.walk(inn) if isinstance(s, ast.Assign) and astq.match(s, f"available[orders[{perm}[{j}]]] = False") is not None]
-    ok = False
-    if len(marks) == 1:
-        gs = fm.guards_within(marks[0], inn)
-        ok = len(gs) == 1 and gs[0].polarity and (
-            astq.match(gs[0].test, f"{perm}[{j}] in graph[{perm}[{i}]]") is not None or astq.match(gs[0].test, f"{perm}[{i}] in graph[{perm}[{j}]]") is not None
+    if len(av) == 1 and len(inner) == 1 and isinstance(inner[0].target, ast.Name):
+        v = av[0].value
+        size = None
+        if isinstance(v, ast.ListComp) and isinstance(v.elt, ast.Constant) and v.elt.value is True and len(v.generators) == 1 and not v.generators[0].ifs:
+            mm = astq.match(v.generators[0].iter, "range(N_)")
+            size = mm["N_"] if mm else None
+        else:
+            mm = astq.match(v, "[True] * N_") or astq.match(v, "N_ * [True]")
+            size = mm["N_"] if mm else None
+        if size is None:
+            chk.error("greedy-available", fi.site(av[0]), f"availability table `{norm(v)}` not recognised")
+        else:
+            try:
+                worst = None
+                for n in range(1, 9):
+                    class _S(ast.NodeTransformer):
+                        def visit_Call(s2, c):
+                            if norm(c) in (f"len({comp})", f"len({perm})"):
+                                return ast.Constant(value=n)
+                            if norm(c) == "len(regions)":
+                                return ast.Constant(value=n + 3)
+                            return s2.generic_visit(c)
+                    val = Folder(chk.repo, MOD, {i: n - 1}).fold(ast.fix_missing_locations(_S().visit(copy.deepcopy(size))))
+                    if not isinstance(val, int) or isinstance(val, bool):
+                        raise ValueError(f"size evaluates to {val!r}")
+                    # position i can need level i at most (i earlier stems), i <= n-1; the lookup needs a free flag
+                    if val < n and worst is None:
+                        worst = (n, val)
+                chk.expect(
+                    worst is None and g.body.index(av[0]) < g.body.index(inner[0]),
+                    "greedy-available",
+                    fi.site(av[0]),
+                    "one availability flag per possible level (>= |component| levels for components of 1..8 stems), all True before each scan",
+                    f"availability table `{norm(v)}` has fewer flags than the component has stems" + (f" ({worst[1]} for {worst[0]} stems)" if worst else "") + " or is not rebuilt before the scan",
+                    K(fi, "greedy-available"),
+                    found=norm(v),
+                )
+            except Exception as ex:
+                chk.error("greedy-available", fi.site(av[0]), f"size of the availability table `{norm(size)}` not evaluable: {ex}")
+        inn = inner[0]
+        j = inn.target.id
+        chk.expect(
+            c01.covers_all_earlier(inn.iter, i),
+            "greedy-earlier",
+            fi.site(inn),
+            "the scan covers all earlier positions 0..i-1 of the permutation",
+            f"`{norm(inn.iter)}` does not cover all earlier positions of the permutation",
+            K(fi, "greedy-earlier"),
+            expected=f"range({i})",
+            found=norm(inn.iter),
         )
-    chk.expect(
-        ok,
-        "greedy-mark",
-        fi.site(inn),
-        "the level of every earlier stem adjacent in the conflict graph is marked unavailable",
-        "the scan does not mark exactly the levels of earlier stems that are adjacent (crossing) to the stem being placed",
-        K(fi, "greedy-mark"),
-        found=[norm(s) for s in inn.body],
-    )
-    st = [s for s in g.body if astq.match(s, f"orders[{perm}[{i}]] = V_") is not None]
-    ok = False
-    if len(st) == 1:
-        val = astq.match(st[0], f"orders[{perm}[{i}]] = V_")["V_"]
-        if isinstance(val, ast.Name):
-            d = [x for s, x in astq.assignments(g, val.id) if x is not None]
-            val = d[0] if len(d) == 1 else val
-        ok = c01.least_available_ok(val, "available") and g.body.index(st[0]) > g.body.index(inn)
-    chk.expect(ok, "greedy-choice", fi.site(g), "the stem gets the least level still available", "the stem is not given the least available level after the scan", K(fi, "greedy-choice"))
-    # result of a permutation recorded
-    rec = [c for c in astq.calls(pl, "add") if astq.match(c, "unique[-1].add(frozenset(orders.items()))") is not None]
+        exits = [n for s in inn.body for n in ast.walk(s) if isinstance(n, (ast.Break, ast.Continue))]
+        chk.expect(not exits, "greedy-earlier-exit", fi.site(inn), "the scan has no early exit", "break/continue in the scan over earlier positions", K(fi, "greedy-exit"))
+        marks = [s for s in ast.walk(inn) if isinstance(s, ast.Assign) and astq.match(s, f"available[orders[{perm}[{j}]]] = False") is not None]
+        if len(marks) == 1:
+            gs = facts(fm.guards_within(marks[0], inn))
+            if len(gs) == 1 and gs[0].polarity and adjacent_to_current(gs[0].test, {f"{perm}[{j}]"}):
+                chk.ok("greedy-mark", fi.site(inn), "the level of every earlier stem adjacent in the conflict graph is marked unavailable")
+            elif len(gs) == 1 and not gs[0].polarity and adjacent_to_current(gs[0].test, {f"{perm}[{j}]"}):
+                chk.violation("greedy-mark", fi.site(marks[0]), "the levels of the NON-adjacent earlier stems are marked unavailable", K(fi, "greedy-mark"))
+            elif not gs:
+                chk.violation("greedy-mark", fi.site(marks[0]), "the level of every earlier stem is marked unavailable, adjacent or not: non-crossing stems are pushed to needlessly high levels", K(fi, "greedy-mark"))
+            else:
+                chk.error("greedy-mark", fi.site(marks[0]), f"condition `{[norm(x.test) for x in gs]}` of the unavailability mark not recognised")
+        else:
+            chk.violation("greedy-mark-form", fi.site(inn), "the scan does not mark exactly the levels of earlier stems that are adjacent (crossing) to the stem being placed", K(fi, "greedy-mark-form"), found=[norm(s) for s in inn.body])
+        if c01.least_available_ok(choice, "available") and g.body.index(store) > g.body.index(inn):
+            chk.ok("greedy-choice", fi.site(store), "the stem gets the least level still available")
+        else:
+            chk.violation("greedy-choice", fi.site(store), f"`{norm(choice)[:100]}` does not give the stem the least available level after the scan", K(fi, "greedy-choice"), found=norm(choice))
+    else:
+        # ---- family 2: set of taken levels + mex -----------------------------------------------------------------
+        tk = [s for s in g.body if isinstance(s, ast.Assign) and isinstance(s.targets[0], ast.Name) and isinstance(s.value, (ast.SetComp, ast.ListComp)) and "orders" in astq.names(s.value)]
+        if len(tk) == 1 and len(tk[0].value.generators) == 1 and isinstance(tk[0].value.generators[0].target, ast.Name) and not inner:
+            tname = tk[0].targets[0].id
+            gen = tk[0].value.generators[0]
+            e = gen.target.id
+            src_ok = norm(gen.iter) in (f"{perm}[:{i}]", f"{perm}[0:{i}]")
+            if norm(gen.iter).startswith(f"{perm}[") and not src_ok:
+                chk.violation("greedy-earlier", fi.site(tk[0]), f"`{norm(gen.iter)}` does not cover all earlier positions of the permutation", K(fi, "greedy-earlier"), found=norm(gen.iter))
+            elif not src_ok:
+                chk.error("greedy-earlier", fi.site(tk[0]), f"source `{norm(gen.iter)}` of the taken levels not recognised")
+            else:
+                chk.ok("greedy-earlier", fi.site(tk[0]), "taken levels are collected over all earlier positions perm[:i]")
+            if norm(tk[0].value.elt) == f"orders[{e}]" and len(gen.ifs) == 1 and adjacent_to_current(gen.ifs[0], {e}):
+                chk.ok("greedy-mark", fi.site(tk[0]), "taken = levels of the earlier stems adjacent to the current one")
+            elif norm(tk[0].value.elt) == f"orders[{e}]" and not gen.ifs:
+                chk.violation("greedy-mark", fi.site(tk[0]), "the level of every earlier stem counts as taken, adjacent or not", K(fi, "greedy-mark"))
+            else:
+                chk.error("greedy-mark", fi.site(tk[0]), f"taken-level collection `{norm(tk[0].value)}` not recognised")
+            mex = None
+            for pat in (f"next((X_ for X_ in range(N_) if X_ not in {tname}))", f"min((X_ for X_ in range(N_) if X_ not in {tname}))", f"next((X_ for X_ in itertools.count() if X_ not in {tname}))", f"min([X_ for X_ in range(N_) if X_ not in {tname}])"):
+                mex = mex or astq.match(choice, pat)
+            if mex and g.body.index(store) > g.body.index(tk[0]):
+                n_e = mex.get("N_") if hasattr(mex, "get") else None
+                if n_e is None or norm(n_e) in (f"len({comp})", f"len({perm})", f"len({comp}) + 1", f"len({perm}) + 1", "len(regions)", f"{i} + 1"):
+                    chk.ok("greedy-choice", fi.site(store), "the stem gets the least level not taken (mex over enough candidate levels)")
+                else:
+                    chk.error("greedy-choice", fi.site(store), f"candidate level range `range({norm(n_e)})` not recognised")
+            else:
+                chk.error("greedy-choice", fi.site(store), f"choice `{norm(choice)[:100]}` of the level not recognised")
+        else:
+            # anti-idiom: one pass with a counter bumped on equality (levels seen earlier in the pass are never re-examined)
+            bumps = [a for l in inner for a in ast.walk(l) if isinstance(a, ast.AugAssign) and isinstance(a.op, ast.Add) and isinstance(a.target, ast.Name) and norm(choice) == a.target.id]
+            eq_guarded = [a for a in bumps if any(isinstance(x.test, ast.Compare) and isinstance(x.test.ops[0], ast.Eq) and a.target.id in astq.names(x.test) and "orders" in astq.names(x.test) for x in facts(fm.guards_within(a, g)))]
+            if eq_guarded and not any(isinstance(n, ast.While) for n in ast.walk(g)):
+                chk.violation("greedy-choice", fi.site(eq_guarded[0]), "the level is a counter bumped in ONE pass over the earlier stems when an adjacent stem sits exactly on it: an adjacent stem scanned earlier on a higher level is never re-examined, so the stem can land on an occupied level", K(fi, "greedy-choice"), found=[norm(s) for s in g.body][:8])
+            else:
+                chk.error("greedy-available", fi.site(g), "first-fit idiom not recognised (neither availability table + scan nor taken-set + mex)")
+    # result of a permutation recorded in the component's own set
+    ui = [(s, v) for s, v in astq.assignments(fi.node, "unique") if v is not None]
+    slot = "unique[-1]" if cidx is None else f"unique[{cidx}]"
+    rec = [c for c in astq.calls(pl, "add") if norm(c) in (f"{slot}.add(frozenset(orders.items()))",)]
     new_set = [s for s in cl.body if norm(s) == "unique.append(set())"]
-    chk.expect(
-        len(rec) == 1 and fm.stmt_of(rec[0]) in pl.body and len(new_set) == 1 and cl.body.index(new_set[0]) < cl.body.index(pl),
-        "greedy-record",
-        fi.site(pl),
-        "the assignment of every permutation is recorded in the component's own set",
-        "the level map of each permutation is not recorded (once, after the greedy loop) in a set owned by the component",
-        K(fi, "greedy-record"),
-    )
+    shared = [v for _, v in ui if _replicated_mutable(v)]
+    if shared:
+        chk.violation("greedy-record", fi.site(shared[0]), f"`{norm(shared[0])}` is one set referenced once per component: every component records into the same set, so assignments of different components are mixed", K(fi, "greedy-record-shared"), found=norm(shared[0]))
+    elif cidx is None:
+        chk.expect(
+            len(rec) == 1 and fm.stmt_of(rec[0]) in pl.body and len(new_set) == 1 and cl.body.index(new_set[0]) < cl.body.index(pl),
+            "greedy-record",
+            fi.site(pl),
+            "the assignment of every permutation is recorded in the component's own set",
+            "the level map of each permutation is not recorded (once, after the greedy loop) in a set owned by the component",
+            K(fi, "greedy-record"),
+        )
+    else:
+        own = len(ui) == 1 and any(astq.match(ui[0][1], p) is not None for p in ("[set() for X_ in components]", "[set() for X_ in range(len(components))]"))
+        if own and len(rec) == 1 and fm.stmt_of(rec[0]) in pl.body:
+            chk.ok("greedy-record", fi.site(pl), "the assignment of every permutation is recorded in the component's own set")
+        else:
+            chk.error("greedy-record", fi.site(pl), "recording of per-permutation assignments not recognised")
 
 
 def check_product(chk, fi: FuncInfo) -> None:
@@ -288,8 +482,20 @@ def check_product(chk, fi: FuncInfo) -> None:
     skip = [n for s in pl.body for n in ast.walk(s) if isinstance(n, (ast.Break, ast.Continue))]
     chk.expect(not skip, "product-skip", fi.site(pl), "no combination is skipped", "break/continue in the product loop", K(fi, "product-skip"))
     oi = [s for s in pl.body if isinstance(s, ast.Assign) and norm(s.targets[0]) == "orders"]
-    ok = len(oi) == 1 and (astq.match(oi[0].value, "{X_: 0 for X_ in range(len(regions))}") is not None or astq.match(oi[0].value, "[0] * len(regions)") is not None or astq.match(oi[0].value, "[0 for X_ in range(len(regions))]") is not None)
-    chk.expect(ok, "product-default", fi.site(pl), "regions outside every conflict component default to level 0", "levels of regions are not defaulted to 0 for every region index", K(fi, "default"), found=norm(oi[0].value) if oi else None)
+    if len(oi) != 1:
+        chk.error("product-default", fi.site(pl), "the level map `orders` is not initialised exactly once per combination")
+    else:
+        v = oi[0].value
+        if any(astq.match(v, p) is not None for p in ("{X_: 0 for X_ in range(len(regions))}", "[0] * len(regions)", "[0 for X_ in range(len(regions))]", "dict.fromkeys(range(len(regions)), 0)")):
+            chk.ok("product-default", fi.site(oi[0]), "regions outside every conflict component default to level 0")
+        elif norm(v) in ("{}", "dict()", "[]", "list()"):
+            chk.violation("product-default", fi.site(oi[0]), f"the level map starts as `{norm(v)}`: regions outside every conflict component get no level (the fill then fails or leaves them out)", K(fi, "default"), found=norm(v))
+        else:
+            mm = astq.match(v, "{X_: C_ for X_ in range(len(regions))}") or astq.match(v, "dict.fromkeys(range(len(regions)), C_)")
+            if mm and isinstance(mm["C_"], ast.Constant) and mm["C_"].value != 0:
+                chk.violation("product-default", fi.site(oi[0]), f"regions outside every conflict component default to level {mm['C_'].value!r}, not 0", K(fi, "default"), found=norm(v))
+            else:
+                chk.error("product-default", fi.site(oi[0]), f"default level map `{norm(v)}` not recognised")
     ul = [l for l in pl.body if isinstance(l, ast.For) and astq.match(l.iter, a) is not None and isinstance(l.target, ast.Name)]
     ok = len(ul) == 1 and len(ul[0].body) == 1 and astq.match(ul[0].body[0], f"orders.update({ul[0].target.id})") is not None
     chk.expect(ok, "product-merge", fi.site(pl), "the chosen map of every component is merged into the level map", "per-component assignments are not all merged (orders.update for every member of the combination)", K(fi, "merge"))
@@ -315,6 +521,13 @@ def check_product(chk, fi: FuncInfo) -> None:
     chk.expect(ok, "early-exit", fi.where, "a pseudoknot-free structure yields the single FCFS (round-bracket) notation", "early exit for an empty conflict graph does not return [FCFS notation]", K(fi, "early-exit"))
 
 
+# rules whose violations rest on positive evidence read off the current code (not on a mismatch with the pinned form)
+ROBUST = {
+    "components-walk", "greedy-perms", "greedy-perms-skip", "greedy-outer", "greedy-available", "greedy-earlier", "greedy-earlier-exit", "greedy-mark",
+    "greedy-choice", "greedy-record", "product", "product-skip", "product-default",
+}
+
+
 def check_enumeration(chk) -> None:
     fi = chk.repo.func(MOD, "BpSeq.all_dot_brackets")
     chk.note_function(fi)
@@ -334,6 +547,7 @@ def run(chk) -> None:
     )
     chk.trusted = ["CPython ast", "lemma: first-fit outcomes over all vertex orders = Grundy colourings", "itertools.permutations/product semantics"]
     chk.assumptions = ["groups of mutually crossing stems have at most 8 stems (cost only)"]
+    chk.robust |= ROBUST | c01.ROBUST
     check_enumeration(chk)
     c01.check_regions(chk)
     c01.check_stems(chk)
